@@ -636,6 +636,32 @@ O(id='CHOICE_decode_uper.b3', props=['C03', 'C04', 'C14'], kind='bounded', entry
   defines=['VF_CB_CAP=8'], unwind=10, cbmc=['--unwindset', 'asn_get_few_bits:4', '--malloc-may-fail', '--malloc-fail-null', '--memory-leak-check'],
   bound='every bit string of at most 24 bits at every bit offset 0..7; every allocation may fail', min_props=60, timeout=900, **CHM)
 
+STB = dict(harness='harness/h_set_ber.c', units=[SK + 'constr_SET.c', SK + 'ber_decoder.c', SK + 'ber_tlv_tag.c', SK + 'ber_tlv_length.c'],
+           link=[SK + 'ber_decoder.c', SK + 'ber_tlv_tag.c', SK + 'ber_tlv_length.c'], stubs=['stubs/bsearch.c'],
+           fp_restrict=[(r'ber_decoder\)$', ['sv_ber']), (r'free_struct\)$', ['sv_free']), (r'compar$', ['_t2e_cmp'])], trusted=[STUBT, 'stubs/bsearch.c'])
+_ub = 'ber_fetch_tag.0:11,ber_fetch_length.0:11,h_SET_decode_ber.0:11,h_SET_decode_ber.1:11,h_SET_decode_ber_chunked.0:11,h_SET_decode_ber_chunked.1:11'
+O(id='SET_decode_ber.b8', props=['C04', 'C14'], kind='bounded', tier='experimental', entry='h_SET_decode_ber',
+  functions=['SET_decode_ber', 'ber_check_tags', 'ber_fetch_tag', 'ber_fetch_length', '_t2e_cmp', '_SET_is_populated', 'SET_free'],
+  defines=['VF_N=8'], unwind=6, cbmc=['--unwindset', _ub, '--malloc-may-fail', '--malloc-fail-null', '--memory-leak-check'],
+  bound='SET { a [0], b [1] OPTIONAL, c [2] } of stub members; every input of at most 8 octets in an exact-size heap buffer; every allocation may fail', min_props=80, timeout=1800, **STB)
+O(id='SET_decode_ber.chunk2', props=['C05', 'C03'], kind='bounded', tier='experimental', entry='h_SET_decode_ber_chunked',
+  functions=['SET_decode_ber', 'ber_check_tags', 'ber_fetch_tag', 'ber_fetch_length', '_t2e_cmp', '_SET_is_populated'],
+  defines=['VF_N=8'], unwind=6, cbmc=['--unwindset', _ub, '--no-malloc-may-fail'],
+  bound='as SET_decode_ber.b8; every split point k (two chunks); C03: the components in every order', min_props=80, timeout=1800, **STB)
+
+CHH = dict(harness='harness/h_choice_helpers.c', units=[SK + 'constr_CHOICE.c'], include=['contracts/constr_CHOICE.h'], backends=['cvc5', 'sat'])
+O(id='_present_idx', props=['C14', 'C18', 'C19'], kind='width', entry='h_present_idx', enforce=['_set_present_idx'], functions=['_set_present_idx', '_fetch_present_idx'],
+  proves=['_set_present_idx', '_fetch_present_idx'], unwind=18, bound='loop-free; every offset 0..12, field size 1/2/4, every index value', min_props=20, timeout=300, **CHH)
+O(id='_fetch_present_idx', props=['C14', 'C19'], kind='width', entry='h_present_idx', enforce=['_fetch_present_idx'], functions=['_fetch_present_idx'],
+  unwind=18, bound='loop-free', min_props=20, timeout=300, **CHH)
+O(id='_search4tag', props=['C03', 'C05', 'C19'], kind='width', entry='h_search4tag', enforce=['_search4tag'], functions=['_search4tag'],
+  unwind=4, bound='loop-free; every pair of tags', min_props=10, timeout=300, **CHH)
+O(id='_search4tag.order', props=['C03', 'C05'], kind='width', entry='h_search4tag_order', functions=['_search4tag'], proves=['_search4tag'],
+  unwind=4, bound='loop-free; every triple of tags', min_props=10, timeout=300, harness='harness/h_choice_helpers.c', units=[SK + 'constr_CHOICE.c'])
+
+O(id='_t2e_cmp', props=['C03', 'C05', 'C19'], kind='width', entry='h_t2e_cmp', enforce=['_t2e_cmp'], functions=['_t2e_cmp'], harness='harness/h_seq_helpers.c',
+  units=[SK + 'constr_SEQUENCE.c'], include=['contracts/constr_SEQUENCE.h'], backends=['cvc5', 'sat'], unwind=4, bound='loop-free; every pair of table entries', min_props=10, timeout=300)
+
 for _o in OBLIGATIONS:
     if _o.get('enforce') and _o.get('kind') in ('enforce', 'width') and _o.get('tier') == 'quick' and 'C19' not in _o['props']:
         _o['props'] = _o['props'] + ['C19']
